@@ -42,11 +42,8 @@ func checkChain(c chainCase) error {
 	if n < 1 || n > 8 || e1 != nil || e2 != nil || ref.TsigHash(algL) == nil || c.Fudge < 16 || c.Time <= uint64(c.Fudge)+16 || c.Time >= 1<<47 {
 		return nil
 	}
-	if len(c.ReqMAC) > 0 && len(c.ReqMAC) < 10 {
-		return nil
-	}
 	pbt.Note([]byte(fmt.Sprintf("%v|%s|%s|%x|%x|%d|%d|%s|%d", c.Msgs, c.KeyName, c.Alg, c.Secret, c.ReqMAC, c.Fudge, c.Time, c.Fault, c.At)), n >= 2,
-		fmt.Sprintf("envelopes=%d", n), "fault="+c.Fault, "alg="+lower(c.Alg), fmt.Sprintf("reqmac=%v", len(c.ReqMAC) > 0))
+		fmt.Sprintf("envelopes=%d", n), "fault="+c.Fault, "alg="+lower(c.Alg), fmt.Sprintf("reqmac=%v", len(c.ReqMAC) > 0), reqLenClass(len(c.ReqMAC)))
 	secret64 := base64.StdEncoding.EncodeToString(c.Secret)
 	// sign the chain with the library
 	envs := make([][]byte, n)
@@ -64,7 +61,7 @@ func checkChain(c chainCase) error {
 		m.SetTsig(c.KeyName, c.Alg, c.Fudge, int64(c.Time)+int64(i))
 		out, mac, err := dns.TsigGenerate(m, sec, hex.EncodeToString(prev), i > 0)
 		if err != nil {
-			return pbt.Errf("TsigGenerate of envelope %d failed: %v", i, err)
+			return pbt.Errf("TsigGenerate of envelope %d failed: %v (previous MAC %d octets)", i, err, len(prev))
 		}
 		envs[i] = out
 		macs[i], _ = hex.DecodeString(mac)
@@ -134,8 +131,7 @@ func genChain(t *rapid.T) chainCase {
 	c.Secret = genSecret(t, "secret")
 	c.Secret2 = append([]byte{0x77}, genSecret(t, "secret2")...)
 	if rapid.Bool().Draw(t, "hasreq") {
-		nr := rapid.SampledFrom([]int{16, 20, 32, 64, 65, 200}).Draw(t, "reqlen")
-		c.ReqMAC = rapid.SliceOfN(rapid.Byte(), nr, nr).Draw(t, "reqmac")
+		c.ReqMAC = genReqMAC(t, []int{16, 20, 32, 64, 65, 200, 1, 2, 3, 9})
 	}
 	c.Fudge = rapid.Uint16Range(16, 65535).Draw(t, "fudge")
 	c.Time = rapid.Uint64Range(uint64(c.Fudge)+17, 1<<40).Draw(t, "time")
@@ -197,11 +193,11 @@ type longCase struct {
 func checkLongMAC(c longCase) error {
 	n := len(c.Msgs)
 	keyL, e := labelsOf(c.KeyName)
-	if n < 1 || n > 6 || e != nil || c.Extra < 0 || c.Extra > 2000 || c.Fudge < 16 || c.Time <= uint64(c.Fudge)+16 || c.Time >= 1<<47 {
+	if n < 1 || n > 6 || e != nil || c.Extra < -31 || c.Extra > 2000 || c.Fudge < 16 || c.Time <= uint64(c.Fudge)+16 || c.Time >= 1<<47 {
 		return nil
 	}
-	pbt.Note([]byte(fmt.Sprintf("%v|%s|%x|%d|%x|%d", c.Msgs, c.KeyName, c.Secret, c.Extra, c.ReqMAC, c.Time)), c.Extra > 32 || len(c.ReqMAC) > 64,
-		fmt.Sprintf("envelopes=%d", n), fmt.Sprintf("mac-octets=%s", map[bool]string{true: ">64", false: "<=64"}[32+c.Extra > 64]), fmt.Sprintf("reqmac>64=%v", len(c.ReqMAC) > 64))
+	pbt.Note([]byte(fmt.Sprintf("%v|%s|%x|%d|%x|%d", c.Msgs, c.KeyName, c.Secret, c.Extra, c.ReqMAC, c.Time)), c.Extra > 32 || len(c.ReqMAC) > 64 || c.Extra < -22 || (len(c.ReqMAC) > 0 && len(c.ReqMAC) < 10),
+		fmt.Sprintf("envelopes=%d", n), fmt.Sprintf("mac-octets=%s", macOctetsClass(32+c.Extra)), fmt.Sprintf("reqmac>64=%v", len(c.ReqMAC) > 64), reqLenClass(len(c.ReqMAC)))
 	var seen [][]byte
 	prov := longProvider{secret: c.Secret, extra: c.Extra, seen: &seen}
 	algL := ref.Labels{[]byte("long-mac"), []byte("example")}
@@ -236,13 +232,31 @@ func checkLongMAC(c longCase) error {
 		if len(prev) > 0 {
 			bad := append([]byte(nil), prev...)
 			bad[len(bad)-1] ^= 1
-			if dns.VerifTsigVerifyAt(append([]byte(nil), out...), prov, hex.EncodeToString(bad), i > 0, c.Time+uint64(i)) == nil {
-				return pbt.Errf("envelope %d verifies with the last octet of the %d-octet previous MAC changed", i, len(prev))
+			// with provider MACs of 1..3 octets the changed digest input has the same MAC once in 2^8..2^24
+			// cases: the expectation is the provider's own MAC of the reference digest input, not "refused"
+			collides := bytes.Equal(prov.mac(ref.TsigDigestInput(bad, packed, t, i > 0)), macB)
+			if collides {
+				pbt.Class("short-provider-mac-collides")
+			}
+			if got := dns.VerifTsigVerifyAt(append([]byte(nil), out...), prov, hex.EncodeToString(bad), i > 0, c.Time+uint64(i)) == nil; got != collides {
+				return pbt.Errf("envelope %d with the last octet of the %d-octet previous MAC changed: verified=%v, the provider's MAC of the RFC 8945 digest input says %v", i, len(prev), got, collides)
 			}
 		}
 		prev = macB
 	}
 	return nil
+}
+
+func macOctetsClass(n int) string {
+	switch {
+	case n <= 3:
+		return fmt.Sprintf("%d", n)
+	case n < 32:
+		return "4-31"
+	case n <= 64:
+		return "32-64"
+	}
+	return ">64"
 }
 
 func genLongMAC(t *rapid.T) longCase {
@@ -252,10 +266,14 @@ func genLongMAC(t *rapid.T) longCase {
 	}
 	c.KeyName = wm.EscName(gen.Name(t, gen.NameOpts{MaxLabs: 3, MaxLabel: 8, Plain: true}))
 	c.Secret = genSecret(t, "secret")
-	c.Extra = rapid.SampledFrom([]int{0, 1, 32, 33, 48, 168, 968}).Draw(t, "extra")
+	// 32 + Extra octets per MAC; negative: a provider whose MACs are shorter than any HMAC (1, 2, 3, 10, 16 octets)
+	c.Extra = rapid.SampledFrom([]int{0, 1, 32, 33, 48, 168, 968, -31, -30, -29, -22, -16}).Draw(t, "extra")
+	if c.Extra == -31 && pbt.Known(findReqMAC1) {
+		pbt.Excluded(findReqMAC1) // every envelope after the first is signed over a one-octet MAC
+		c.Extra = -30
+	}
 	if rapid.Bool().Draw(t, "hasreq") {
-		nr := rapid.SampledFrom([]int{16, 64, 65, 100, 1000}).Draw(t, "reqlen")
-		c.ReqMAC = rapid.SliceOfN(rapid.Byte(), nr, nr).Draw(t, "reqmac")
+		c.ReqMAC = genReqMAC(t, []int{16, 64, 65, 100, 1000, 1, 2, 3})
 	}
 	c.Fudge = rapid.Uint16Range(16, 65535).Draw(t, "fudge")
 	c.Time = rapid.Uint64Range(uint64(c.Fudge)+17, 1<<40).Draw(t, "time")
